@@ -33,26 +33,26 @@ ToSet(s) == {s[i] : i \in 1..Len(s)}
 TAStart ==
   /\ IsEvent("AStart")
   /\ AStart(ev.H, ev.A, ev.R)
-  /\ Consume /\ UNCHANGED <<varsB, varsC, scen, mode>>
+  /\ Consume /\ UNCHANGED <<varsB, varsC, scen, mode, live>>
 
 TProbe ==
   /\ IsEvent("Probe")
   /\ (SeekProbe \/ FindProbe)
   /\ probes' = Append(probes, ev.n)          \* the height the spec probes is the height the implementation asked for
   /\ ev.ov = Overlapped(ev.n)                \* and the peer's answer is what the chains imply
-  /\ Consume /\ UNCHANGED <<varsB, varsC, scen, mode>>
+  /\ Consume /\ UNCHANGED <<varsB, varsC, scen, mode, live>>
 
 TASilent ==
   /\ l <= Len(Trace)
   /\ SeekExhausted
-  /\ UNCHANGED <<l, varsB, varsC, scen, mode>>
+  /\ UNCHANGED <<l, varsB, varsC, scen, mode, live>>
 
 TAResult ==
   /\ IsEvent("AResult")
   /\ apc = "done"
   /\ ev.err = ""
   /\ ev.anc = res
-  /\ Consume /\ UNCHANGED <<varsA, varsB, varsC, scen, mode>>
+  /\ Consume /\ UNCHANGED <<varsA, varsB, varsC, scen, mode, live>>
 
 (* ---------------------------------------------------------------- (B) *)
 TBStart ==
@@ -60,7 +60,7 @@ TBStart ==
   /\ LET S == ToSet(ev.local)
          b == CHOOSE x \in S : x.id = ev.best
      IN BStart(S, b, ev.anc)
-  /\ mode' = ev.sched
+  /\ mode' = ev.sched /\ live' = Stages
   /\ Consume /\ UNCHANGED <<varsA, varsC, scen>>
 
 \* the block stream handler driven on its own: the stream (blocks and nil throttle markers) is given, nothing is fetched
@@ -70,7 +70,7 @@ TSStart ==
          b == CHOOSE x \in S : x.id = ev.best
          q == [i \in 1..Len(ev.stream) |-> IF ev.stream[i].id = "nil" THEN Nil ELSE ev.stream[i]]
      IN BStartWith(S, b, ev.anc, q, TRUE)
-  /\ mode' = "free"
+  /\ mode' = "free" /\ live' = Stages
   /\ Consume /\ UNCHANGED <<varsA, varsC, scen>>
 
 Answer(e) == IF e.t = "blocks" THEN [t |-> "blocks", bs |-> e.bs] ELSE [t |-> e.t]
@@ -105,16 +105,30 @@ TFetch ==
   /\ Has(ev, "sizes") => Len(ev.bs) = Served(ev.sizes, 524288, MaxBatch)    \* an honest server: (D), never empty while it has a block
   /\ Fetch(Answer(ev))
   /\ tainted' = (tainted \/ ev.bad)
-  /\ Consume /\ UNCHANGED <<varsA, varsC, scen, mode>>
+  /\ Consume /\ UNCHANGED <<varsA, varsC, scen, mode, live>>
 
+\* "late": the importer starts only when everything else has come to rest (a slow importer): fetch and decode first, the
+\* handler moves when the decoder cannot and no further answer of the peer is recorded before the end of the case
+NextIsEnd == l <= Len(Trace) /\ Trace[l].e = "BEnd"
+LateSilent == \/ (~IsEvent("Fetch") \/ Len(rawQ) >= RawCap) /\ (DecTake \/ DecBlock \/ DecDone)    \* answers first, one order only
+              \/ ~DecCanMove /\ NextIsEnd /\ Handle
+              \/ Finish
 TBSilent ==
   /\ l <= Len(Trace)
-  /\ IF mode = "eager" THEN EagerSilent ELSE FreeSilent
+  /\ CASE mode = "eager" -> EagerSilent
+       [] mode = "late" -> LateSilent
+       [] OTHER -> FreeSilent
+  /\ UNCHANGED <<l, varsA, varsC, scen, mode, live>>
+
+\* the stages return one by one once the group is cancelled or finished
+TBExit ==
+  /\ l <= Len(Trace)
+  /\ \E sg \in Stages : StageExit(sg)
   /\ UNCHANGED <<l, varsA, varsC, scen, mode>>
 
 TBEnd ==
   /\ IsEvent("BEnd")
-  /\ status # "run"
+  /\ Returned                                \* download() came back: every stage has returned
   /\ ev.status = status
   /\ ev.imported = imported
   /\ ev.best = best.id
@@ -126,7 +140,7 @@ TBEnd ==
 TConn ==
   /\ IsEvent("Conn")
   /\ CReset
-  /\ Consume /\ UNCHANGED <<varsA, varsB, scen, mode>>
+  /\ Consume /\ UNCHANGED <<varsA, varsB, scen, mode, live>>
 
 Footprint(e) ==
   /\ creply' - creply = e.reply
@@ -141,7 +155,7 @@ TMsg ==
   /\ IF ev.cls = "random"
      THEN \E cls \in Classes : \E acc \in BOOLEAN : HandleMsg(ev.code, cls, ev.call, acc) /\ Footprint(ev)
      ELSE \E acc \in BOOLEAN : HandleMsg(ev.code, ev.cls, ev.call, acc) /\ Footprint(ev)
-  /\ Consume /\ UNCHANGED <<varsA, varsB, scen, mode>>
+  /\ Consume /\ UNCHANGED <<varsA, varsB, scen, mode, live>>
 
 (* ---------------------------------------------------------------- (S) *)
 TSyncEnd ==
@@ -154,8 +168,8 @@ TSyncEnd ==
 
 TNote == IsEvent("Note") /\ Consume /\ UNCHANGED <<vars, mode>>
 
-Init == IdleA /\ IdleB /\ IdleC /\ scen = NoScen /\ l = 1 /\ mode = "free" /\ HWMInit
-Next == TAStart \/ TProbe \/ TASilent \/ TAResult \/ TBStart \/ TSStart \/ TFetch \/ TBSilent \/ TBEnd \/ TConn \/ TMsg
+Init == IdleA /\ IdleB /\ IdleC /\ scen = NoScen /\ live = {} /\ l = 1 /\ mode = "free" /\ HWMInit
+Next == TAStart \/ TProbe \/ TASilent \/ TAResult \/ TBStart \/ TSStart \/ TFetch \/ TBSilent \/ TBExit \/ TBEnd \/ TConn \/ TMsg
         \/ TSyncEnd \/ TNote
 Spec == Init /\ [][Next]_tvars
 
